@@ -229,8 +229,8 @@ def gen_atomic_grids_cider(
 
         if symb not in atom_grids_tab:
             chg = gto.charge(symb)
-            if symb in atom_grid:
-                n_rad, n_ang = atom_grid[symb]
+            if symb in atom_grid or "default" in atom_grid:
+                n_rad, n_ang = atom_grid.get(symb, atom_grid.get("default"))
                 if n_ang not in LEBEDEV_NGRID:
                     raise ValueError("Unsupported angular grids %d" % n_ang)
             else:
